@@ -30,7 +30,7 @@ pub fn components_stream() -> Value {
 }
 
 pub fn all_property_ids() -> Vec<&'static str> {
-    vec!["C01", "C03", "C04", "C05", "C06", "C07", "C08", "C09", "C10", "C11", "C12", "C13"]
+    vec!["C01", "C03", "C04", "C05", "C06", "C07", "C08", "C09", "C10", "C11", "C12", "C13", "C18"]
 }
 
 pub fn property_spec(id: &str) -> Option<PropertySpec> {
@@ -47,6 +47,7 @@ pub fn property_spec(id: &str) -> Option<PropertySpec> {
         "C11" => Some(crate::scen::c11::spec()),
         "C12" => Some(crate::scen::c12::spec()),
         "C13" => Some(crate::scen::c13::spec()),
+        "C18" => Some(crate::scen::c18::spec()),
         _ => None,
     }
 }
